@@ -41,6 +41,8 @@ type BatchPos struct {
 	NShards int    `json:"nshards"`
 	N       int    `json:"n"`
 	Race    bool   `json:"race,omitempty"`
+	// WeakHash: the weak-hash mode of the worker process (simrt/hash.go), 0 = off
+	WeakHash int `json:"weak_hash_bits,omitempty"`
 }
 
 type Sample struct {
